@@ -56,6 +56,10 @@ func c06Run(r *runCtx, id string, f []string) {
 	mo := multi.observe()
 	r.obs(id, "%s", strings.Join(dumps, " || "))
 	multi.close()
+	if multi.hung != "" {
+		r.fail(id, "load-hangs", "ops %s: %s; no later program can be loaded and every export through the store blocks", f[2], multi.hung)
+		return
+	}
 	progs := map[string]bool{}
 	for _, op := range ops {
 		p := strings.Split(op, ":")
